@@ -38,3 +38,6 @@ var BaseTime = baseTime
 
 type GenesisState = band.GenesisState
 
+
+// AnchoredIn reports the first file of the property's anchor list that appears in a panic stack ("" if none).
+func AnchoredIn(prop, stack string) string { return anchoredIn(prop, stack) }
